@@ -632,6 +632,20 @@ func c01Sequence(cs *drv.Case, vals []cval, sched int, withData bool) {
 
 func monC01(c *drv.Ctx) {
 	// (1) exhaustive bool / i8 / i16 (each value through every writer and reader)
+	// the type tags a caller passes to the header writers are the numbers Thrift assigns (TType)
+	c.Stage("wire-constants", 1, true, func(cs *drv.Case) {
+		got := map[string]int8{"STOP": thrift.STOP, "VOID": thrift.VOID, "BOOL": thrift.BOOL, "BYTE": thrift.BYTE, "I08": thrift.I08, "DOUBLE": thrift.DOUBLE, "I16": thrift.I16,
+			"I32": thrift.I32, "I64": thrift.I64, "STRING": thrift.STRING, "UTF7": thrift.UTF7, "STRUCT": thrift.STRUCT, "MAP": thrift.MAP, "SET": thrift.SET, "LIST": thrift.LIST,
+			"UTF8": thrift.UTF8, "UTF16": thrift.UTF16}
+		want := map[string]int8{"STOP": 0, "VOID": 1, "BOOL": 2, "BYTE": 3, "I08": 3, "DOUBLE": 4, "I16": 6, "I32": 8, "I64": 10, "STRING": 11, "UTF7": 11, "STRUCT": 12, "MAP": 13,
+			"SET": 14, "LIST": 15, "UTF8": 16, "UTF16": 17}
+		for k, w := range want {
+			if got[k] != w {
+				cs.Fail("type-tag-constant", M{"name": k}, M{"got": got[k], "thrift_defines": w})
+			}
+		}
+		cs.Count(true, "constants")
+	})
 	c.Stage("exhaustive-small-scalars", 2+256+65536/256, true, func(cs *drv.Case) {
 		var vals []cval
 		switch {
